@@ -118,7 +118,10 @@ PROPS = {
                      "Sqlize.Table.walkIdx_refines_down", "Sqlize.Table.walkFk_refines_down",
                      "Sqlize.C02.indexes_and_keys_up_then_down", "Sqlize.Abs.Idx.up_then_down", "Sqlize.Abs.Idx.execAll_perm",
                      "Sqlize.C02.tables_from_scripts", "Sqlize.Migration.migrate_tbl_down", "Sqlize.C02.changed_column_reverted",
-                     "Sqlize.C02.columns_on_reference_engine", "Sqlize.columns_spec_down", "Sqlize.removed_column_def", "Sqlize.Table.diffCols2_mem_full"],
+                     "Sqlize.C02.columns_on_reference_engine", "Sqlize.columns_spec_down", "Sqlize.removed_column_def", "Sqlize.Table.diffCols2_mem_full",
+                     "Sqlize.C02.indexes_with_dropped_columns", "Sqlize.Abs.Idx.emitDownSup_correct", "Sqlize.Table.walkIdx_refines_down_sup",
+                     "Sqlize.equal_pk_untouched_down", "Sqlize.table_spec_down_any", "Sqlize.table_stmts_justified_down", "Sqlize.loaded_table_spec",
+                     "Sqlize.schema_spec_down", "Sqlize.C02.schema_on_reference_engine", "Sqlize.C02.up_then_down_on_reference_engine"],
         "suites": [{"name": "pair"}],
         "corr_points": ["load-old", "load-new", "state-old", "state-new", "Diff", "state-diff", "StringUp", "StringDown"],
         "rule": PAIR_RULE,
@@ -130,8 +133,11 @@ PROPS = {
                        "list back into the old one up to order (a redefined index is re-created as the old side defines it), the foreign-key statements its new "
                        "key list into the old one unless a key is redefined in place (indexes_and_keys_from_scripts); a changed column is modified back to the old definition "
                        "(changed_column_reverted); composed on the reference engine: Spec.execAll of the printed down column statements on the new schema is well-formed at every step and "
-                       "leaves the table with a column list equal to the old side's, other tables untouched (columns_on_reference_engine). Remaining parts of "
-                       "Sqlize.C02.Statement_partial (a changed primary key, COMMENT options, drop suppression, the lift of the index/key clauses to Spec.exec, other dialects) are decided by correspondence + Spec.c02 on the Go output.",
+                       "leaves the table with a column list equal to the old side's, other tables untouched (columns_on_reference_engine); the index statements printed when the down "
+                       "migration drops columns are Abs.Idx.emitDownSup and turn what DROP COLUMN leaves of the new index list into the old one (indexes_with_dropped_columns); and for whole schemas without foreign keys, "
+                       "inline PRIMARY KEY and COMMENT options, tables on both sides order-compatible with the same primary key and outside the recorded region: the executable predicate Spec.c02 itself "
+                       "returns ok on the printed down migration (schema_on_reference_engine), and with the C01 theorem down undoes up on the reference engine (up_then_down_on_reference_engine). Remaining parts of "
+                       "Sqlize.C02.Statement_partial (a changed primary key, COMMENT options, foreign keys on the reference engine, other dialects) are decided by correspondence + Spec.c02 on the Go output.",
     },
     "C03": {
         "level": "proof",
